@@ -93,6 +93,11 @@ def sig_source(params, first=None):
 
   def one(p):
     name = p[0]
+    if len(p) > 3 and isinstance(p[3], dict) and p[3].get('late'):
+      # a STRING annotation naming a module global that is defined only later
+      # (forward reference): unresolvable until then
+      name += ": 'typing.Annotated[object, " + p[3]['late'] + "]'"
+      return name if p[2] is None else f'{name} = {default_value(p)!r}'
     if len(p) > 3 and p[3]:
       # annotation tags: fiddle attaches them when the config is created
       name += ': typing.Annotated[object, ' + ', '.join(p[3]) + ']'
@@ -221,7 +226,8 @@ def install(specs):
           o.__module__ = 'fsim.stubmod'
         except (AttributeError, TypeError):
           pass
-    ann = {p[0]: list(p[3]) for p in spec['params'] if len(p) > 3 and p[3]}
+    ann = {p[0]: list(p[3]) for p in spec['params']
+           if len(p) > 3 and p[3] and not isinstance(p[3], dict)}
     if ann:
       obj._fsim_ann = ann  # the model reads the annotation tags from here
     out[spec['name']] = obj
